@@ -167,6 +167,9 @@ def run(ck):
                 rv = e.get("recv") or {}
                 if c in kinds or (c.startswith(P) and may_walk(e)) or (e.get("op") == "=" and strip_tmpl(rv.get("f") or "") in (P + "Core::state", P + "Core::exc")):
                     need.append(e)
+        # (only what some path can reach: the arm of a shared helper that belongs to the other outcome is not part of this function)
+        live_ = cfg.feasible_events(f)
+        need = [e for e in need if id(e) in live_]
         guards = [d for d in f.events("decl") if lib.guard_of_decl(d) and lib.guard_of_decl(d)[1] == MTX]
         ok = len(guards) == 1 and bool(need)
         detail = "guards on core mtx: %d, guarded operations: %d" % (len(guards), len(need))
